@@ -400,3 +400,13 @@ def forward_obligations(ctx, u):
     cs = list(A.calls_in(ua.body(fn), "rtosc_amessage"))
     ctx.ob("R01.6", "rtosc_avmessage=>rtosc_amessage", len(cs) == 1 and _call_args_are_params(ua, fn, cs[0], [(0, 0), (1, 1), (2, 2)]), site=A.where(fn),
            what="rtosc_avmessage does not forward (buffer,len,address) unchanged")
+    # ---- R01.13: type letter and value of one argument come from the value the iterator hands out
+    ctx.rule("R01.13", "AVMESSAGE-ONE-SOURCE: in rtosc_avmessage every read of an argument value's type or value goes through the pointer rtosc_arg_val_itr_get returned - never through the iterator's raw cursor (`itr.av`), which stands on the range header inside a repetition: "
+             "the type string and the decision whether a value is pushed for a tag (none for T, F, N, I) must be taken from the same value")
+    gets13 = list(A.calls_in(ua.body(fn), "rtosc_arg_val_itr_get"))
+    ctx.require(len(gets13) >= 1, "R01.13: rtosc_avmessage no longer reads its values through rtosc_arg_val_itr_get")
+    raw13 = [y for y in A.walk(ua.body(fn)) if y.get("kind") == "MemberExpr" and y.get("name") in ("type", "val") and A.kids(y) and
+             any(z.get("kind") == "MemberExpr" and z.get("name") == "av" and "rtosc_arg_val_itr" in (A.qtype(A.strip_casts(A.kids(z)[0])) or "") for z in A.walk(A.kids(y)[0]))]
+    ctx.ob("R01.13", "rtosc_avmessage: reads of type / value", not raw13, site=A.where(raw13[0]) if raw13 else A.where(fn), detail={"reads_through_the_raw_cursor": [A.src(y)[:40] for y in raw13][:4]},
+           key="R01.13:rtosc_avmessage",
+           what="rtosc_avmessage reads `%s` through the iterator's raw cursor: inside a repetition that is the range header, so a value is pushed for every repeated T / F / N / I and the values behind them shift (`3xtrue 42 7` encodes 1 1 for the two integers)" % (A.src(raw13[0])[:40] if raw13 else ""))
